@@ -1,11 +1,47 @@
 (* C07 - ID-star estimands equal the probability of the counterfactual event. *)
-From Coq Require Import List Bool.
-From Y0 Require Import Base.ListSet Graph.MixedGraph Dsl.Syntax Dsl.Build Alg.Id Alg.Cg Alg.IdStar Proofs.CfP.
+From Coq Require Import List Bool Arith.
+From Y0 Require Import Base.ListSet Graph.MixedGraph Dsl.Syntax Dsl.Build Alg.Id Alg.Cg Alg.IdStar Proofs.CfP
+  Sem.Scm Sem.CfSem Proofs.CgSemP Proofs.CgSem5P Proofs.StarSemP.
 Import ListNotations.
 
-(* The property is VIOLATED by the pinned implementation (known findings C07/*, DESIGN.md section 6): the faithful
-   model reproduces the wrong values the oracle finds. A Coq refutation needs the functional-SCM semantics (planned).
-   Proved on the model so far: the entry cases. *)
+(* The property is VIOLATED by the pinned implementation (known findings C07/*, DESIGN.md section 6): the faithful model reproduces the wrong
+   answers the oracle finds. The clause 'it returns zero only for events that have probability zero in every compatible model' is REFUTED below by a
+   machine-checked counter-model (semantics: Sem/Scm.v). What IS sound, and is proved against the same semantics for every input: the three places
+   where ID* answers zero or drops a conjunct before the recursion over districts. *)
+Theorem C07_zero_only_for_impossible_events_refuted :
+  exists (g0 : mg nat) (topo : list nat) (ev : event) (f : nat -> (nat -> bool) -> unit -> bool) (rho : nat * bool -> bool),
+    local g0 unit f /\ is_topo g0 topo = true /\ (forall n, rho (n, false) <> rho (n, true)) /\
+    id_star g0 topo (S (4 * length (nodes g0))) ev = [IdOk EZero] /\ event_true unit f rho topo ev tt = true.
+Proof.
+  (* C -> B, C -> A, B -> A, A <-> B; event { B = +b, A_{B = -b} = -a }; model B := +b, A := B *)
+  exists (MG [2; 1; 0] [(2, 1); (2, 0); (1, 0)] [(0, 1)]), [2; 1; 0], [(V 1, (1, true)); (mkVar KCf 0 None [(1, false)], (0, false))],
+         (fun v x _ => match v with 1 => true | 0 => x 1 | _ => false end), (fun i => snd i).
+  split; [|split; [vm_compute; reflexivity|split; [intros n; cbn; discriminate|split; vm_compute; reflexivity]]].
+  intros v x x' u Hp. destruct v as [|[|v]]; try reflexivity. apply Hp. vm_compute. auto.
+Qed.
+
+(* line 2: an event one of whose conjuncts contradicts its own subscript is true at no exogenous state of any model *)
+Theorem C07_events_violating_effectiveness_have_probability_zero (g0 : mg nat) (D : Type) `{EqB D} (U : Type) (f : nat -> (nat -> D) -> U -> D)
+  (rho : nat * bool -> D) (order : list nat) ev u :
+  (forall n, rho (n, false) <> rho (n, true)) -> local g0 U f -> is_topo g0 order = true -> event_ok g0 ev ->
+  violates_axiom_of_effectiveness ev = true -> event_true U f rho order ev u = false.
+Proof. intros Hr Hl Ho. exact (effectiveness_violation_never g0 U f rho Hr Hl order Ho ev u). Qed.
+
+(* line 3: the conjuncts ID* drops (Y_{..y..} = y) are true at every state: the event keeps its truth everywhere *)
+Theorem C07_dropped_conjuncts_hold_everywhere (g0 : mg nat) (D : Type) `{EqB D} (U : Type) (f : nat -> (nat -> D) -> U -> D)
+  (rho : nat * bool -> D) (order : list nat) ev u :
+  local g0 U f -> is_topo g0 order = true -> event_ok g0 ev ->
+  event_true U f rho order (remove_event_tautologies ev) u = event_true U f rho order ev u.
+Proof. intros Hl Ho. exact (tautologies_hold_everywhere g0 U f rho Hl order Ho ev u). Qed.
+
+(* line 5: when make-cg reports an inconsistency (for whatever order of the worlds) the event is true at no state (C18) *)
+Theorem C07_inconsistent_counterfactual_graph_means_probability_zero (g0 : mg nat) (D : Type) `{EqB D} (U : Type) (f : nat -> (nat -> D) -> U -> D)
+  (rho : nat * bool -> D) (order : list nat) ev cf u :
+  (forall n, rho (n, false) <> rho (n, true)) -> local g0 U f -> is_topo g0 order = true -> wf g0 -> (forall x, ~ In (x, x) (bid g0)) -> event_ok g0 ev ->
+  In (cf, None) (make_counterfactual_graph_all (gv g0) ev (map V order)) -> event_true U f rho order ev u = false.
+Proof. intros Hr Hl Ho Hw Hn He Hin. exact (cg_all_same_truth g0 U f rho Hr Hl order Ho Hw Hn ev cf None He Hin u). Qed.
+
+(* Entry cases on the model: *)
 Theorem C07_empty_event_has_probability_one g topo fuel : id_star g topo (S fuel) [] = [IdOk EOne].
 Proof. exact (id_star_empty_event g topo fuel). Qed.
 
@@ -13,5 +49,9 @@ Theorem C07_zero_for_events_violating_effectiveness g topo fuel ev :
   ev <> [] -> violates_axiom_of_effectiveness ev = true -> id_star g topo (S fuel) ev = [IdOk EZero].
 Proof. exact (id_star_effectiveness_gives_zero g topo fuel ev). Qed.
 
+Print Assumptions C07_zero_only_for_impossible_events_refuted.
+Print Assumptions C07_events_violating_effectiveness_have_probability_zero.
+Print Assumptions C07_dropped_conjuncts_hold_everywhere.
+Print Assumptions C07_inconsistent_counterfactual_graph_means_probability_zero.
 Print Assumptions C07_empty_event_has_probability_one.
 Print Assumptions C07_zero_for_events_violating_effectiveness.
